@@ -152,6 +152,12 @@ class DomainFidelity(Harness):
             yield {"text": f"(define (domain gen) (:requirements :typing) (:types b - a a - object) {decl} (:action act :parameters () :precondition (and (g)) :effect (and (g))))"}
         for decl in ["(:functions (f ?x - a) (c))", "(:functions (f ?x ?y - a))", "(:functions (f ?x))", "(:functions (f ?x - a) - number)"]:
             yield {"text": f"(define (domain gen) (:requirements :typing) (:types b - a a - object) (:predicates (g)) {decl} (:action act :parameters () :precondition (and (g)) :effect (and (g))))", "must_accept": decl == "(:functions (f ?x - a) (c))"}
+        # long declaration lists (every member must be registered, also the ones after a private group / late in the list)
+        many_p = " ".join(f"(p{i} ?x - a)" for i in range(9))
+        many_f = " ".join(f"(f{i} ?x - a)" for i in range(9))
+        for decl in [f"(:predicates (g) {many_p})", "(:predicates (g) (p0 ?x - a) (:private (p1 ?x - a) (p2 ?y - b ?x - a) (p3)) (p4 ?x - a) (:private (p5 ?x - a)) (p6 ?x - b))",
+                     f"(:predicates (g)) (:functions {many_f})", f"(:predicates (g) {many_p}) (:functions (c) {many_f} (d ?x - a ?y - b))"]:
+            yield {"text": f"(define (domain gen) (:requirements :typing) (:types b - a a - object) {decl} (:action act :parameters () :precondition (and (g)) :effect (and (g))))"}
         for decl in ["(:constants k - a j - b)", "(:constants k j - a)", "(:constants k - a j)", "(:constants k)", "(:constants k - zz)"]:
             yield {"text": f"(define (domain gen) (:requirements :typing) (:types b - a a - object) {decl} (:predicates (g)) (:action act :parameters () :precondition (and (g)) :effect (and (g))))"}
 
